@@ -22,13 +22,13 @@ def HistoryIndependent (U : Universe) : Prop :=
 def witnessU : Universe :=
   ⟨[ { name := "C".toList, base := none, isModel := true, inPkg := true, ns := none, mname := none,
        targetNs := none, moduleNs := none, globalType := true, inner := false, bad := false,
-       fields := [⟨"x".toList, .element, none, none, none, none⟩] },
+       fields := [Field.elem "x".toList] },
      { name := "PA".toList, base := none, isModel := true, inPkg := true, ns := some (some "urn:a".toList),
        mname := none, targetNs := none, moduleNs := none, globalType := true, inner := false, bad := false,
-       fields := [⟨"c".toList, .element, none, none, some 0, none⟩] },
+       fields := [Field.elem "c".toList (some 0)] },
      { name := "PB".toList, base := none, isModel := true, inPkg := true, ns := some (some "urn:b".toList),
        mname := none, targetNs := none, moduleNs := none, globalType := true, inner := false, bad := false,
-       fields := [⟨"c".toList, .element, none, none, some 0, none⟩] } ]⟩
+       fields := [Field.elem "c".toList (some 0)] } ]⟩
 
 def w3 : World := ⟨3, 0⟩
 
@@ -66,10 +66,10 @@ theorem stale_index_witness_values :
 def evictU : Universe :=
   ⟨[ { name := "T".toList, base := none, isModel := true, inPkg := true, ns := some (some "urn:a".toList),
        mname := none, targetNs := none, moduleNs := none, globalType := true, inner := false, bad := true,
-       fields := [⟨"x".toList, .element, none, none, none, none⟩] },
+       fields := [Field.elem "x".toList] },
      { name := "T2".toList, base := none, isModel := true, inPkg := true, ns := some (some "urn:a".toList),
        mname := some "T".toList, targetNs := none, moduleNs := none, globalType := true, inner := false,
-       bad := false, fields := [⟨"x".toList, .element, none, none, none, none⟩] } ]⟩
+       bad := false, fields := [Field.elem "x".toList] } ]⟩
 
 /-- the same two classes, the unbuildable one created last (so that it is the
 one `find_type` picks: `types[-1]`) -/
@@ -286,6 +286,63 @@ theorem serialize_repaired :
 /-- serialisation is index-free: `metadata_history_independent` applies to it -/
 example : (Op.serialize docPB).indexFree = true ∧ (Op.build 0 (some "urn:b".toList)).indexFree = true := by
   decide
+
+/-! ### compound (`type="Elements"`) fields -/
+
+/-- `Address`, `Person`; `Order.choice` = billTo:Address | buyer:Person;
+`Shipment.choice` = shipTo:Address | carrier:Person; `Home(Address)` -/
+def choiceU : Universe :=
+  ⟨[ { name := "Address".toList, base := none, isModel := true, inPkg := true, ns := none, mname := none,
+       targetNs := none, moduleNs := none, globalType := true, inner := false, bad := false,
+       fields := [Field.elem "city".toList] },
+     { name := "Person".toList, base := none, isModel := true, inPkg := true, ns := none, mname := none,
+       targetNs := none, moduleNs := none, globalType := true, inner := false, bad := false,
+       fields := [Field.elem "name".toList] },
+     { name := "Order".toList, base := none, isModel := true, inPkg := true, ns := none,
+       mname := some "order".toList, targetNs := none, moduleNs := none, globalType := true, inner := false,
+       bad := false,
+       fields := [{ name := "choice".toList, kind := .elements, mname := none, ns := none, cls := none,
+                    alts := [⟨some "billTo".toList, none, 0⟩, ⟨some "buyer".toList, none, 1⟩] }] },
+     { name := "Shipment".toList, base := none, isModel := true, inPkg := true, ns := none,
+       mname := some "shipment".toList, targetNs := none, moduleNs := none, globalType := true, inner := false,
+       bad := false,
+       fields := [{ name := "choice".toList, kind := .elements, mname := none, ns := none, cls := none,
+                    alts := [⟨some "shipTo".toList, none, 0⟩, ⟨some "carrier".toList, none, 1⟩] }] },
+     { name := "Home".toList, base := some 0, isModel := true, inPkg := true, ns := none, mname := none,
+       targetNs := none, moduleNs := none, globalType := true, inner := false, bad := false,
+       fields := [Field.elem "door".toList] } ]⟩
+
+def w5 : World := ⟨5, 0⟩
+/-- `Order(choice=[Address(city), Person(name)])` -/
+def docOrder : List Tok :=
+  [.enter 0 2, .enter 0 0, .leaf 0, .leave, .enter 0 1, .leaf 0, .leave, .leave]
+/-- `Shipment(choice=[Address(city), Home(city), Person(name)])` -/
+def docShipment : List Tok :=
+  [.enter 0 3, .enter 0 0, .leaf 0, .leave, .enter 0 4, .leaf 0, .leave, .enter 0 1, .leaf 0, .leave, .leave]
+
+/-- **compound_choice_by_field**: which choice of a compound field a model value is
+written under is decided by *that field's* choices and the value's class (exact
+type first, then the first choice whose type is a base of it) — and by nothing a
+serializer instance could remember.  Two models whose compound fields have the
+same name and share their member classes: after `Order` has been serialised,
+`Shipment` is written with its own element names (and `xsi:type="Home"` for the
+subclass value, `@Home`), as on fresh instances
+(instance of `metadata_history_independent`, evaluated; the correspondence runs
+every history through ONE real `EventGenerator`). -/
+theorem compound_choice_by_field :
+    (step choiceU w5 (run choiceU State.init [(w5, .serialize docOrder)]) (.serialize docShipment)).2
+      = .gotNames ["shipment".toList, "shipTo".toList, "city".toList, "shipTo".toList, "@Home".toList,
+          "city".toList, "carrier".toList, "name".toList] ∧
+    fresh choiceU w5 (.serialize docOrder)
+      = .gotNames ["order".toList, "billTo".toList, "city".toList, "buyer".toList, "name".toList] ∧
+    (Op.serialize docShipment).indexFree = true := by
+  decide
+
+/-- the choice is a function of the field's choices and the class alone -/
+theorem find_clazz_choice_exact_first (U : Universe) (choices : List ChoiceVar) (c : ClassId)
+    (ch : ChoiceVar) (h : choices.find? (fun x => x.cls == c) = some ch) :
+    findClazzChoice U choices c = some ch := by
+  simp [findClazzChoice, h]
 
 /-! ## Memoised helpers -/
 
